@@ -1,6 +1,6 @@
 #!/bin/sh
 # usage: tools/eval_all_seeded.sh <dir-with-ID/_out> : evaluates every seeded change with its own property's quick check
-for id in C03 C04 C06 C07 C10 C11 C12 C13 C14 C15 C16 C19 C20; do for x in A B; do
+for id in ${IDS:-C03 C04 C06 C07 C10 C11 C12 C13 C14 C15 C16 C19 C20}; do for x in A B; do
   [ -f "$1/$id/_out/$x.diff" ] || continue
   echo "=== $id $x"
   /verif/tools/eval_seeded.py "$1/$id/_out/$x.diff" "$1/$id/_out/demo_$x.py" $id > "/tmp/evalres.$id.$x.json"
